@@ -287,23 +287,31 @@ def write_replay(pid, tag, payload):
 
 # ---------------------------------------------------------------- main
 
-WIDE_BUDGET = 40_000_000     # sum of capacity x operations over the cases above capacity 1000: a few minutes on 16 cores
+WIDE_BUDGET = 1500.0     # CPU seconds of model time the steered search may spend on its expensive cases
+
+
+def model_seconds(c):
+    """Measured cost of one case in the extracted model (its store is a function, its event log a list that is
+    appended to): ~1.4e-8 s x capacity^2 for an operation on a buffer of that capacity, ~1e-7 s x length^2 for
+    an operation that takes a slice or iterator of that length."""
+    n = c.N if c.N < (1 << 40) else 0                 # zero-sized element types carry no contents
+    longest = max((len(o) for o in c.ops), default=0) // 10
+    return 1.4e-8 * n * n + 1e-7 * longest * longest
 
 
 def within_budget(cases, budget, seed):
-    """The steered search runs whole families at capacities in the thousands, where a model step costs time
-    proportional to the capacity. Keep every case at capacities up to 1000 and a seeded subsample of the larger
-    ones such that the sum of (capacity x operations) stays within [budget]."""
-    cost = lambda c: c.N * (len(c.ops) + 1)
-    big = [c for c in cases if 1000 < c.N < (1 << 40)]
-    total = sum(cost(c) for c in big)
+    """The steered search runs whole families at capacities and lengths in the thousands. Keep every cheap case and a
+    seeded subsample of the expensive ones (> 20 ms) such that their estimated model time stays within [budget]."""
+    costly = [(c, model_seconds(c)) for c in cases]
+    costly = [(c, t) for (c, t) in costly if t > 0.02]
+    total = sum(t for _, t in costly)
     if total <= budget:
         return cases
     import cases as C
     r = C.Rng(seed * 31 + 5)
-    keep_num, keep_den = budget, total
-    kept = set(id(c) for c in big if r.below(keep_den) < keep_num)
-    return [c for c in cases if not (1000 < c.N < (1 << 40)) or id(c) in kept]
+    scale = 1 << 30
+    drop = set(id(c) for (c, _) in costly if r.below(scale) >= int(scale * budget / total))
+    return [c for c in cases if id(c) not in drop]
 
 
 def run_plan(plan, tier, seed, wd, extra_cfgs=(), budget=None):
